@@ -97,7 +97,8 @@ def h_stdp(e, cfg):
     layer, conn, neuron, w0 = build_cell(e, cfg)
     delayed_flag = cfg.get("delayed", False)
     e.tag(trainer=trainer_kind, cell=cfg["cell"], signs=cfg["signs"], trace=mode, delayed=delayed_flag, has_delay=cfg.get("maxdelay") is not None)
-    common = dict(lr_post=lr_post, lr_pre=lr_pre, tc_post=HP["tc_post"], tc_pre=HP["tc_pre"], trace_mode=mode, batch_reduction=redfn)
+    c_post, c_pre = SIGNS[cfg["ctor_signs"]] if cfg.get("ctor_signs") else (lr_post, lr_pre)     # constructor defaults (may be overridden per cell)
+    common = dict(lr_post=c_post, lr_pre=c_pre, tc_post=HP["tc_post"], tc_pre=HP["tc_pre"], trace_mode=mode, batch_reduction=redfn)
     if trainer_kind == "stdp":
         tr = learn.STDP(delayed=delayed_flag, **common)
     elif trainer_kind == "mstdp":
@@ -105,9 +106,20 @@ def h_stdp(e, cfg):
     elif trainer_kind == "mstdpet":
         tr = learn.MSTDPET(tc_eligibility=10.0, **common)
     else:
-        tr = learn.TripletSTDP(lr_post_pair=lr_post, lr_post_triplet=0.3, lr_pre_pair=lr_pre, lr_pre_triplet=0.2, tc_post_fast=HP["tc_post"], tc_post_slow=40.0,
+        tr = learn.TripletSTDP(lr_post_pair=c_post, lr_post_triplet=0.3 * c_post / lr_post, lr_pre_pair=c_pre, lr_pre_triplet=0.2 * c_pre / lr_pre, tc_post_fast=HP["tc_post"], tc_post_slow=40.0,
                                tc_pre_fast=HP["tc_pre"], tc_pre_slow=30.0, delayed=delayed_flag, trace_mode=mode, batch_reduction=redfn)
-    tr.register_cell("c", layer.cell)
+    if cfg.get("ctor_signs"):
+        if trainer_kind == "triplet":
+            tr.register_cell("c", layer.cell, lr_post_pair=lr_post, lr_pre_pair=lr_pre, lr_post_triplet=0.3, lr_pre_triplet=0.2)
+        else:
+            tr.register_cell("c", layer.cell, lr_post=lr_post, lr_pre=lr_pre)
+    else:
+        tr.register_cell("c", layer.cell)
+    if cfg.get("bounded"):
+        import inferno.functional as fnl
+        conn.updater.weight.upperbound(fnl.bound_upper_multiplicative, 3.0)
+        conn.updater.weight.lowerbound(fnl.bound_lower_multiplicative, -3.0)
+    per_step = cfg.get("per_step", False)
     a_pre, a_post = K(math.exp(-dt / HP["tc_pre"])), K(math.exp(-dt / HP["tc_post"]))
     A_pre, A_post = K(abs(lr_post)), K(abs(lr_pre))       # amplitude of the PRE trace is |lr_post| and vice versa
     kind = cfg["cell"]
@@ -144,6 +156,7 @@ def h_stdp(e, cfg):
             s2 = s - delay_steps(cfg, o, i)
             return num(pre_hist[s2][b, i]) if s2 >= 0 else F(0)
         cpost, cpre = {}, {}
+        step_parts = {}
         for b in range(B):
             for (o, i) in pairs:
                 arr = [arrival(b, o, i, s) for s in range(t + 1)]
@@ -192,6 +205,30 @@ def h_stdp(e, cfg):
                 pos_acc[p].append(ps)
             if ng is not None:
                 neg_acc[p].append(ng)
+            step_parts[p] = (ps, ng)
+        if per_step:
+            acc = conn.updater.weight
+            gp, gn = acc.pos, acc.neg
+            for nm, g in (("potentiation", gp), ("depression", gn)):
+                if g is not None:
+                    for v in e.read(g).reshape(-1):
+                        e.oblige("split:part-nonnegative", T.ge(v, 0), part=nm, step=t)
+            wsh = tuple(conn.weight.shape)
+            zero = zeros(wsh)
+            ga = e.read(gp) if gp is not None else zero
+            gb = e.read(gn) if gn is not None else zero
+            for idx in np.ndindex(*wsh):
+                o, i = idx if kind != "direct" else (idx[0], idx[0])
+                if cfg.get("bounded"):      # accumulators are not cleared between steps: compare the running sums
+                    rule = T.sub(sum_(pos_acc[(o, i)]), sum_(neg_acc[(o, i)]))
+                else:
+                    ps, ng = step_parts[(o, i)]
+                    rule = T.sub(ps if ps is not None else F(0), ng if ng is not None else F(0))
+                e.oblige("split:net-equals-signed-rule", T.same(T.sub(ga[idx], gb[idx]), rule), step=t, elem=list(idx))
+            if not cfg.get("bounded"):
+                acc.clear()
+                for p in pairs:
+                    pos_acc[p], neg_acc[p] = [], []
     # ---- compare the accumulators
     acc = conn.updater.weight
     gp, gn = acc.pos, acc.neg
@@ -214,10 +251,16 @@ def h_stdp(e, cfg):
     for idx in np.ndindex(*wshape):
         o, i = idx if kind != "direct" else (idx[0], idx[0])
         v = w0[idx]
-        if any_pos:
-            v = T.add(v, sum_(pos_acc[(o, i)]))
-        if any_neg:
-            v = T.sub(v, sum_(neg_acc[(o, i)]))
+        if cfg.get("bounded"):
+            if any_pos:
+                v = T.add(v, T.mul(T.sub(K(3.0), w0[idx]), sum_(pos_acc[(o, i)])))
+            if any_neg:
+                v = T.sub(v, T.mul(T.sub(w0[idx], K(-3.0)), sum_(neg_acc[(o, i)])))
+        else:
+            if any_pos:
+                v = T.add(v, sum_(pos_acc[(o, i)]))
+            if any_neg:
+                v = T.sub(v, sum_(neg_acc[(o, i)]))
         if kind == "lateral" and o == i:
             v = F(0)
         exp[idx] = v
